@@ -365,7 +365,7 @@ impl Check for C13 {
         ]
     }
     fn explore(&self, cli: &Cli, st: &mut Stats) {
-        let len = cli.tier.pick(5usize, 7usize);
+        let len = cli.tier.pick(5usize, 8usize);
         let wms: Vec<Wm> = (0..=4).map(Wm::Bounded).chain([Wm::Monotonic]).collect();
         // exhaustive part, sharded by first timestamp x watermark config
         let mut jobs: Vec<(Wm, u64)> = Vec::new();
